@@ -5,7 +5,7 @@ use checks::common::*;
 use checks::for_all_cfgs;
 use proptest::prelude::*;
 use vlib::gen::{self, Shape};
-use vlib::runner::{self, outcome, Job, Obs, Property};
+use vlib::runner::{self, outcome, Outcome, Job, Obs, Property};
 use vlib::{ck, Pat, Z};
 
 const QUICK: u32 = 1500;
@@ -201,6 +201,9 @@ fn i_neg_abs<I: SInt>(c: &Pat, obs: &mut Obs) -> Result<(), String> {
         },
     )?;
     ck!("unsigned_abs", st(&a.unsigned_abs()), pz::<I::U>(&e));
+    if fits::<I>(&e) {
+        ck!("num_traits::Signed::abs (sibling entry point)", oc(|| a.nt_abs()), Outcome::Returned(pz::<I>(&e)));
+    }
     Ok(())
 }
 
